@@ -18,6 +18,14 @@ func init() { factFns["Wire"] = factsWire }
 // facts shared by C02, C03, C07, C08: limits, the NewValue dispatch table, the
 // signature-letter table with the reader each letter gets.
 func factsWire() {
+	// the source files the wire models transliterate, function by function
+	emitFuncDigests("f_src_reader_go", "meta/signature/reader.go")
+	emitFuncDigests("f_src_encoding_go", "type/encoding/encoding.go")
+	emitFuncDigests("f_src_value_go", "type/value/value.go")
+	emitFuncDigests("f_src_basic_go", "type/basic/basic.go")
+	emitFuncDigests("f_src_message_go", "bus/net/message.go")
+	emitFuncDigests("f_src_metaobject_gen_go", "type/object/metaobject_gen.go")
+	emitFuncDigests("f_src_authenticate_go", "bus/authenticate.go")
 	emitN("f_MaxStringSize", uint64(basic.MaxStringSize))
 	emitN("f_rawValueMaxSize", uint64(value.VerifRawValueMaxSize))
 	emitN("f_listValueMaxSize", uint64(value.VerifListValueMaxSize))
